@@ -7,6 +7,7 @@ CONSTANTS
   Keys = {"a"}
   Vals = {"x", "y"}
   Prunings <- PruningsSel
+  Strategies = {}
   PrunSel = {1, 2, 3, 4, 5, 6, 7, 8, 9, 10, 11, 12, 13}
   MaxVer = 3
   MaxWrites = 1
@@ -17,6 +18,8 @@ CONSTANTS
   CrashPlan = FALSE
   CrashKind = "any"
   TransientFirst = TRUE
+  MaxLoads = 0
+  LoadScope = "blockstart"
   ObsKind = {}
 VIEW view
 INVARIANTS
